@@ -5,8 +5,9 @@
 
     nested4 <ncfg4> <script> <history: events…>
         → `T <items…> C <state value after every history item …> Q <queue length after every item …>` | `oof` | `noinit`
-    c04n <ncfg4> <initial configuration (state value)> <items>
-        → `ok` | `reject <number of trigger calls accepted before the rejected one>`   (`C04N.checkTrace`)
+    c04n <qmax> <fuel> <ncfg4> <initial configuration (state value)> <items>
+        → `ok` | `reject <number of trigger calls accepted before the rejected one>`   (`C04N.checkTrace` /
+          `C04N.aHistory`; `qmax`, `fuel` = the bounds the `nested4` run of the same input uses)
 -/
 import Handlers.Basic
 import Handlers.HC02
@@ -78,10 +79,12 @@ def nested4Case : P String := do
       pure s!"T {joinNats (encItems s.log)} C {joinNats (encSVal (buildStateList [] s0.conf) ++ confs.flatten)} Q {joinNats qs}"
 
 def c04nCase : P String := do
+  let qmax ← nat
+  let fuel ← nat
   let c ← ncfg4
   let v ← svalTop
   let items ← list item
-  let r := C04N.aHistory c (items.length + 1) (items.length + 1) items.length { conf := buildStateTree v .nil } items 0
+  let r := C04N.aHistory c qmax fuel items.length { conf := buildStateTree v .nil } items 0
   pure (if r.2.1 then "ok" else s!"reject {r.1}")
 
 def hC04N : List (String × Handler) :=
